@@ -1009,6 +1009,14 @@ struct Gen<'a> {
 
 const PAD: char = '~';
 
+/// UPDATE to a TOAST-sized value is a DML/TOAST matter (owned by other properties): long texts only arrive by INSERT
+fn short_text(v: V) -> V {
+    match v {
+        V::Text(s) if s.len() >= 900 => V::Text(s.chars().take(12).collect()),
+        other => other,
+    }
+}
+
 impl<'a> Gen<'a> {
     fn push(&mut self, op: Op) {
         let _ = self.m.apply(&op);
@@ -1157,7 +1165,8 @@ impl<'a> Gen<'a> {
             let c = self.rng.pick(&settable).clone();
             let Some((kc, kv)) = self.key_of(&t, true) else { return };
             let val = self.val(c.ty, !c.not_null && c.default.is_none());
-            self.push(Op::Update { q: q.to_string(), set_col: c.name, val, key_col: kc, key: kv });
+            let val = short_text(val);
+                    self.push(Op::Update { q: q.to_string(), set_col: c.name, val, key_col: kc, key: kv });
         } else {
             let present = self.rng.chance(4, 5);
             let Some((kc, kv)) = self.key_of(&t, present) else { return };
@@ -1213,7 +1222,8 @@ impl<'a> Gen<'a> {
                     if let Some((kc, kv)) = self.key_of(&t, true) {
                         if &kc != n {
                             let val = self.val(t.cols[p].ty, false);
-                            self.push(Op::Update { q: q.to_string(), set_col: n.clone(), val, key_col: kc, key: kv });
+                            let val = short_text(val);
+                    self.push(Op::Update { q: q.to_string(), set_col: n.clone(), val, key_col: kc, key: kv });
                         }
                     }
                 }
@@ -1238,6 +1248,7 @@ impl<'a> Gen<'a> {
                 let c = self.rng.pick(&others).clone();
                 if let Some((kc, kv)) = self.key_of(&t2, true) {
                     let val = self.val(c.ty, false);
+                    let val = short_text(val);
                     self.push(Op::Update { q: q.to_string(), set_col: c.name, val, key_col: kc, key: kv });
                 }
             }
